@@ -49,7 +49,7 @@ AllModes == {"absent", "blackhole", "slow", "healthy", "closing", "paused"}
 ASSUME InitModes \subseteq AllModes /\ Modes \subseteq AllModes
 ASSUME Mutant \in {"", "BlockingSend", "DialInLoop", "DropNoCount", "RedoSkipDrain", "DropSafeOld",
                    "NoIngest", "UnspoolWhileSlow", "LoseReadAhead", "SpoolDropNoCount", "DownDropNoCount",
-                   "WriteTimeoutDrop", "DeadDropNoCount", "BlockingUnspool", "SyncFlushOldConn"}
+                   "WriteTimeoutDrop", "DeadDropNoCount", "BlockingUnspool", "SyncFlushOldConn", "KsCapRotate"}
 ASSUME AddrUpd \in BOOLEAN
 
 VARIABLES
@@ -249,9 +249,14 @@ HdRecv(k) ==      \* case buf := <-c.In   (also possible while a shutdown is que
   /\ hdl' = [hdl EXCEPT ![k] = Head(cin[k])] /\ cin' = [cin EXCEPT ![k] = Tail(@)] /\ hd' = [hd EXCEPT ![k] = "got"]
   /\ UNCHANGED <<senderV, relayV, ctorV, redoV, spoolV, epV, cntV, nconn, alive, shut, ksOld, ksNew, ksdone, wbuf, kern, sock>>
 
+\* (deviation "KsCapRotate": a generation that holds one line already -- its capacity in this model -- is rotated out by
+\* the next Add instead of growing: keepSafe then keeps a bounded number of lines, not the lines of the last keep period)
 HdAdd(k) ==       \* c.keepSafe.Add(buf)
-  /\ hd[k] = "got" /\ ksNew' = [ksNew EXCEPT ![k] = Append(@, hdl[k])] /\ hd' = [hd EXCEPT ![k] = "added"]
-  /\ UNCHANGED <<senderV, relayV, ctorV, redoV, spoolV, epV, cntV, nconn, cin, alive, shut, hdl, ksOld, ksdone, wbuf, kern, sock>>
+  /\ hd[k] = "got" /\ hd' = [hd EXCEPT ![k] = "added"]
+  /\ IF Mutant = "KsCapRotate" /\ Len(ksNew[k]) >= 1
+     THEN ksOld' = [ksOld EXCEPT ![k] = ksNew[k]] /\ ksNew' = [ksNew EXCEPT ![k] = <<hdl[k]>>]
+     ELSE ksNew' = [ksNew EXCEPT ![k] = Append(@, hdl[k])] /\ UNCHANGED ksOld
+  /\ UNCHANGED <<senderV, relayV, ctorV, redoV, spoolV, epV, cntV, nconn, cin, alive, shut, hdl, ksdone, wbuf, kern, sock>>
 
 HdWrite(k) ==     \* c.Write(buf) into the bufio writer (room left)
   /\ hd[k] = "added" /\ Len(wbuf[k]) < IOB
